@@ -44,7 +44,7 @@ def gen_table(rng, family, base):
                 k = rng.choice(list(K))
                 K[k] = max(0, K[k] + rng.choice((-2, -1, -1, 1, 1, 2)))
                 if rng.random() < 0.06:
-                    K[k] = rng.choice((13, 14, 16, 18, 24))        # far above any usual valence
+                    K[k] = rng.choice((13, 14, 16, 18, 24, 2 ** 70, 10 ** 400))   # far above any usual valence / any machine number
             elif u < 0.8:
                 el = rng.choice(COMMON)
                 K[key_of(el, rng.choice((1, -1, 2, -2, 3)))] = rng.randint(0, 7)
@@ -222,7 +222,7 @@ def atom_syms_of(K):
 def saturate(sym, n):
     """Root atom followed by n one-atom branches and a tail: the number of F
     in the decoded SMILES is min(capacity, n + 1) -- reveals the capacity."""
-    return sym + "[Branch1][C][F]" * n + "[F]"
+    return sym + "[Branch1][C][F]" * min(n, 40) + "[F]"
 
 
 def hsym(el, ch, h, b=""):
@@ -700,7 +700,7 @@ class _GenState:
             op = {"op": "set_table", "lit": lit(K)}
             u = rng.random()
             if u < 0.12:
-                op["wrap"] = rng.choice(("defaultdict", "OrderedDict", "Counter", "missing", "strsub_keys", "intsub_vals"))
+                op["wrap"] = rng.choice(("defaultdict", "OrderedDict", "Counter", "missing", "strsub_keys", "intsub_vals", "strenum_keys"))
             yield op
             self.table_changed(K)
             if 0.12 <= u < 0.17:
